@@ -143,7 +143,11 @@ def fields_optimal(r, o, native=True):
     if pc < 0: want = gap / -pc
     elif dc > 0: want = gap / dc
     else: want = None
-    if native and not ((rg is None and want is None) or (rg is not None and want is not None and close(rg, want, 1e-4, 1e-10))):
+    # which branch defines the relative gap depends on the signs of pcost and dcost: when one of them is zero up to rounding (an optimal
+    # value of exactly 0) the solver's branch is decided by the last bit and no comparison is meaningful
+    scale = 1e-9 * (1.0 + abs(pc) + abs(dc) + gap)
+    sign_unclear = abs(pc) <= scale or abs(dc) <= scale
+    if native and not sign_unclear and not ((rg is None and want is None) or (rg is not None and want is not None and close(rg, want, 1e-4, 1e-10))):
         bad.append(('relative gap', rg, want))
     return bad
 
